@@ -55,7 +55,8 @@ type codec struct {
 	gen func(r *rand.Rand) (v any, class string)
 	// enc / dec call the implementation; ok=false means it returned an error.
 	enc func(v any) ([]byte, bool)
-	dec func(data []byte) (any, bool)
+	// dec gets the generated value as context (nil in raw mode): CheckHeader needs the wanted header
+	dec func(v any, data []byte) (any, bool)
 	// payload renders the Coq c27_payload term: the generated value (hasV), the
 	// bytes handed to dec and what dec returned.
 	payload func(v any, hasV bool, data []byte, res any, resOK bool) string
@@ -268,7 +269,7 @@ func run(in input) vh.Result {
 		mode = 1
 		if !encOK || len(enc) == 0 {
 			mode, data = 3, enc
-		} else if _, ok := c.dec(enc); !ok {
+		} else if _, ok := c.dec(v, enc); !ok {
 			mode, data = 3, enc // not a round-tripping value: just bytes
 		} else {
 			data = enc[:in.Cut%len(enc)]
@@ -294,7 +295,7 @@ func run(in input) vh.Result {
 		data = nil
 	} else {
 		alloc = measure(func() {
-			res, resOK = c.dec(data)
+			res, resOK = c.dec(v, data)
 			sink = res
 		})
 	}
@@ -304,7 +305,7 @@ func run(in input) vh.Result {
 		for j, k := range pts {
 			if j%stride == 0 {
 				a := measure(func() {
-					r2, ok := c.dec(enc[:k])
+					r2, ok := c.dec(v, enc[:k])
 					sink = r2
 					if ok {
 						truncOK = append(truncOK, uint64(k))
@@ -315,7 +316,7 @@ func run(in input) vh.Result {
 				}
 				continue
 			}
-			if _, ok := c.dec(enc[:k]); ok {
+			if _, ok := c.dec(v, enc[:k]); ok {
 				truncOK = append(truncOK, uint64(k))
 			}
 		}
